@@ -50,13 +50,13 @@ PROPS['C18'] = dict(
 )
 PROPS['C04'] = dict(
   level='proof',
-  verus=[dict(unit='peephole', min_functions=2), dict(unit='bytecode', min_functions=1), _findings_variant(['spec:handler_depth_is_live_depth'])],
+  verus=[dict(unit='peephole', min_functions=2), dict(unit='bytecode', min_functions=1), dict(unit='ops', min_functions=6), _findings_variant(['spec:handler_depth_is_live_depth'])],
   not_decided=['PopHandler emission on every exit path (compiler), Fiber::stack_unwind/finish_unwind (raw frames), native-callback boundary'],
 )
 
 PROPS['C01'] = dict(
   level='proof',
-  verus=[dict(unit='ops', min_functions=20)],
+  verus=[dict(unit='ops', min_functions=20), dict(unit='native', min_functions=3)],
   kani=[dict(crate='value', harnesses=['proofs::o14_6_falsey', 'proofs::o14_3_num_eq_ieee'], features='', kind='complete', assumption_ids=['A-kani']),
         dict(crate='value', harnesses=['proofs::o14_6_falsey', 'proofs::o14_3_num_eq_ieee'], features='nan_boxing', kind='complete', assumption_ids=['A-kani'])],
   not_decided=['parser precedence/associativity, statement lowering, scope-exit drops, returns: everything in parser.rs / compiler/mod.rs',
@@ -77,7 +77,7 @@ PROPS['C13'] = dict(
 )
 PROPS['C16'] = dict(
   level='proof',
-  verus=[dict(unit='ops', min_functions=40)],
+  verus=[dict(unit='ops', min_functions=40), dict(unit='native', min_functions=4)],
   not_decided=['the ~150 native bodies, call_native, recursion through native callbacks, errors during handling, resolve_call/call/call_closure (frame limit)'],
 )
 _HEAP_COMPLETE = ['proofs::o20_2_next_aligned', 'proofs::o20_2_array_layout_str', 'proofs::o20_2_array_layout_tuple', 'proofs::o20_2_array_layout_instance',
